@@ -173,6 +173,44 @@ def isosteric_case(conv_name):
     return bool(ok), '' if ok else f"before {a[:3]} after converting a used isotherm {b3[:3]}"
 
 
+def isosteric_all_case(conv_name):
+    """every isotherm of the set stored in another representation (or with all loadings multiplied by a constant): the enthalpy
+    curve -- an intensive result -- is the same, and the loading points it is reported at are the same amounts"""
+    import glob
+    import pygaps
+    import pygaps.characterisation as c
+    import pygaps.parsing as pgp
+    pygaps.logger.disabled = True
+    files = sorted(glob.glob(os.path.join(DATA, 'isosteric', '*.json')))
+    isos = [pgp.isotherm_from_json(f) for f in files]
+    r0 = c.isosteric_enthalpy(isos)
+    a, n0 = _flat(r0['isosteric_enthalpy']), numpy.asarray(r0['loading'], dtype=float)
+    if conv_name.startswith('scale='):
+        k = float(conv_name.split('=')[1])
+        isos2 = [pygaps.PointIsotherm(pressure=i.pressure(), loading=i.loading() * k, **i.to_dict()) for i in isos]
+        factor = k
+    else:
+        conv = dict(CONVERSIONS)[conv_name]
+        isos2 = [_converted(i, conv) for i in isos]
+        # the unit factor, read off the data (first isotherm, point with the largest loading)
+        j = int(numpy.argmax(isos[0].loading()))
+        factor = float(isos2[0].loading()[j] / isos[0].loading()[j])
+    try:
+        r1 = c.isosteric_enthalpy(isos2)
+    except Exception as exc:
+        return False, f"{type(exc).__name__}: {exc}"[:160]
+    b, n1 = _flat(r1['isosteric_enthalpy']), numpy.asarray(r1['loading'], dtype=float)
+    probs = []
+    if n1.shape != n0.shape or not numpy.allclose(n1, n0 * factor, rtol=1e-6):
+        probs.append(f"loading points {n0[:2]}..{n0[-1]:.5g} (x {factor:.6g}) vs {n1[:2]}..{n1[-1]:.5g}")
+    if len(a) != len(b) or not numpy.allclose(a, b, rtol=1e-5):
+        probs.append(f"enthalpy {a[:3]} vs {b[:3]}")
+    return not probs, '; '.join(probs)
+
+
+ISOSTERIC_ALL = ('l=mol', 'l=mass:mg', 'l=cm3(STP)', 'p=kPa,l=mass:g', 'l=volume_gas:cm3', 'l=volume_liquid:cm3', 'scale=0.001', 'scale=250.0', 'T=degC', 'json')
+
+
 def all_cases(thorough=False):
     convs = [c[0] for c in CONVERSIONS if thorough or c[0] in QUICK]
     out = []
@@ -188,6 +226,8 @@ def all_cases(thorough=False):
         out.append(('henry', cv))
         if cv.startswith('p=') and cv not in ('p=relative', 'p=relative%') or cv == 'T=degC':
             out.append(('isosteric', cv))
+    for cv in ISOSTERIC_ALL:
+        out.append(('isosteric_all', cv))
     return out
 
 
@@ -202,6 +242,9 @@ def run_case(spec):
     elif kind == 'henry':
         ok, d = henry_case(spec[1])
         name = f"initial_henry_slope(exact unit factor)|{spec[1]}"
+    elif kind == 'isosteric_all':
+        ok, d = isosteric_all_case(spec[1])
+        name = f"isosteric_enthalpy(all isotherms converted)|{spec[1]}"
     else:
         ok, d = isosteric_case(spec[1])
         name = f"isosteric_enthalpy(one isotherm converted)|{spec[1]}"
@@ -233,6 +276,8 @@ def _case(spec, model):
             nm = f"alpha_s(reference converted)|{s[1]}"
         elif s[0] == 'henry':
             nm = f"initial_henry_slope(exact unit factor)|{s[1]}"
+        elif s[0] == 'isosteric_all':
+            nm = f"isosteric_enthalpy(all isotherms converted)|{s[1]}"
         else:
             nm = f"isosteric_enthalpy(one isotherm converted)|{s[1]}"
         if nm == spec['name']:
